@@ -8,7 +8,7 @@ from prog_registry import RegistryProgram, oracle_registry
 from prog_children import ChildrenProgram, oracle_children
 from prog_broker import BrokerProgram, oracle_broker
 from prog_mailbox import (oracle_containment, oracle_owning, MailboxProgram, oracle_fifo, oracle_own_result, oracle_resolves, oracle_stop_barrier,
-                          oracle_backpressure, oracle_handles, oracle_liveness_flags, oracle_lifecycle, oracle_stream, oracle_timeouts)
+                          oracle_backpressure, oracle_handles, oracle_liveness_flags, oracle_lifecycle, oracle_stream, oracle_timeouts, oracle_live_ops)
 
 
 def mailbox_programs(tier):
@@ -34,6 +34,7 @@ def mailbox_programs(tier):
     add('stop_race_bounded', 1, {'c1': [('send', A, 'a1'), ('stop', A), ('send', A, 'a2')], 'c2': [('call', A, 'b1')]})
     add('halt_and_await', None, {'c1': [('clone', A, 'a2'), ('send', A, 'a1'), ('halt', 'a2')], 'c2': [('await', A)]})
     add('backpressure_bounded2_burst', 2, {'c1': [('send', A, 'a1'), ('send', A, 'a2'), ('send', A, 'a3'), ('send', A, 'a4'), ('send', A, 'a5')]}, 1, K=2)
+    add('force_pileup_bounded1', 1, {'c1': [('call', A, 'a1')], 'c2': [('call', A, 'b1')], 'c3': [('call', A, 'd1'), ('stop', A)]}, 1, K=3)
     add('backpressure_sym', 'sym', {'c1': [('send', A, 'a1')], 'c2': [('send', A, 'b1')]}, 1)
     add('backpressure_sym3', 'sym', {'c1': [('send', A, 'a1'), ('send', A, 'a2')], 'c2': [('send', A, 'b1')]}, 1, 't')
     add('backpressure_weak', 1, {'c1': [('mk_weak_sender', A, 'ws'), ('weak_send', 'ws', 'a1'), ('weak_send', 'ws', 'a2')], 'c2': [('call', A, 'b1')]}, 1, 't')
@@ -170,6 +171,11 @@ def evaluate(tr, status, cap, scripts, spec=None):
     out['C01'] += oracle_fifo(tr, scripts)
     out['C02'] += oracle_own_result(tr, scripts)
     out['C02'] += oracle_resolves(tr, status, scripts)
+    if not (spec is not None and (spec.get('timeout') or spec.get('faults') or spec.get('started') or spec.get('stream'))):
+        lo = oracle_live_ops(tr, scripts)
+        out['C02'] += [m for m in lo if m.startswith(('call', 'ping'))]
+        out['C12'] += [m for m in lo if m.startswith(('stop', 'restart'))]
+        out['C15'] += [m for m in lo if m.startswith(('stop', 'restart'))]
     if not (spec is not None and spec.get('timeout')):
         # (with a handler timeout a call may legitimately fail before any stop: abandoned handler / failed actor)
         out['C04'] += oracle_stop_barrier(tr, scripts)
